@@ -35,6 +35,17 @@ def processor(prog):
     return c13.key_value_processor(prog)
 
 
+def _is_pend_take(x, pend):
+    """x is `self.<pending>.take()` (or mem::take / mem::replace(.., None) of it): the value that was pending."""
+    x = strip_refs(x)
+    if x.k != "call" or not x.a[1]:
+        return False
+    n = x.a[0]
+    if not (n.endswith("Option::<T>::take") or n.endswith("mem::take") or n.endswith("mem::replace")):
+        return False
+    return self_path(x.a[1][0]) == (pend,)
+
+
 def summarise(prog, limit=60000):
     fx = builders.fixed_ty(prog)
     roles = builders.method_roles(prog)
@@ -202,7 +213,14 @@ def summarise(prog, limit=60000):
                 if m[1] == "rmc" and wrote_buf:
                     s.tainted = True
                 return ("%s_map" % m[1], m[0]), some
-            if self_path(x) == (pend,):
+            if self_path(x) == (pend,) or _is_pend_take(x, pend):
+                # `pending.take()` yields what was pending and leaves None (recorded as an effect at the call); taking from None changes nothing
+                if some is False and _is_pend_take(x, pend) and ("pending", None) in s.effects:
+                    i_ = len(s.effects) - 1 - s.effects[::-1].index(("pending", None))
+                    del s.effects[i_]
+                    if ("eff", ("pending", None)) in s.events:
+                        j_ = len(s.events) - 1 - s.events[::-1].index(("eff", ("pending", None)))
+                        del s.events[j_]
                 return ("pending_some",), some
             if x.k == "call" and x.a[0].endswith("String::pop"):
                 return ("popped_some",), some
@@ -211,6 +229,8 @@ def summarise(prog, limit=60000):
             # variant of the pending sign
             r, f = apath(x)
             if f and f[0] == pend and ("@Some" in f):
+                return ("pending_variant", allv), vals
+            if _is_pend_take(r, pend) and f and ("@Some" in f):
                 return ("pending_variant", allv), vals
             if x.k == "field" and contains_call(x, lambda n: n.endswith("String::pop")) is None and any(self_path(y) == (pend,) for y in x.walk()):
                 return ("pending_variant", allv), vals
